@@ -685,3 +685,118 @@ func openSuccessConds(p *core.Prog, atoms []core.Atom, depth int) [][]core.Atom 
 	}
 	return [][]core.Atom{atoms}
 }
+
+// liftTerm re-expresses a term computed in the frame of helper f in the frame of the function named root: a captured variable
+// becomes the value bound where the closure is made, a parameter the argument of the helper's only call site in the module. It
+// fails (false) when f is not reached from root alone: a closure made twice, a function with no or with several call sites.
+func liftTerm(c *Ctx, f *ssa.Function, t *core.Term, root string, depth int) (*core.Term, bool) {
+	if core.FuncName(f) == root {
+		return t, true
+	}
+	if depth > 6 || f == nil {
+		return t, false
+	}
+	if par := f.Parent(); par != nil {
+		var mc *ssa.MakeClosure
+		n := 0
+		for _, b := range par.Blocks {
+			for _, in := range b.Instrs {
+				if m, ok := in.(*ssa.MakeClosure); ok && m.Fn == ssa.Value(f) {
+					mc = m
+					n++
+				}
+			}
+		}
+		if n != 1 {
+			return t, false
+		}
+		paths := firstPath(par, mc.Block())
+		if len(paths) == 0 {
+			return t, false
+		}
+		env := core.NewEnv(c.P, paths[0])
+		t2 := t.Subst(func(x *core.Term) *core.Term {
+			if x.Op != "free" {
+				return nil
+			}
+			for i, fv := range f.FreeVars {
+				if fv.Name() != x.Name || i >= len(mc.Bindings) {
+					continue
+				}
+				if al, ok := mc.Bindings[i].(*ssa.Alloc); ok {
+					return env.LoadValue(al, mc)
+				}
+				return env.Term(mc.Bindings[i])
+			}
+			return nil
+		})
+		return liftTerm(c, par, t2, root, depth+1)
+	}
+	node := c.P.CallGraph().Nodes[f]
+	if node == nil {
+		return t, false
+	}
+	var site ssa.CallInstruction
+	for _, e := range node.In {
+		if e.Caller.Func == nil || !core.InModule(e.Caller.Func) || e.Site == nil {
+			continue
+		}
+		if site != nil && site != e.Site {
+			return t, false
+		}
+		site = e.Site
+	}
+	if site == nil || site.Common().IsInvoke() || site.Common().StaticCallee() != f {
+		return t, false
+	}
+	caller := site.Parent()
+	paths := firstPath(caller, site.Block())
+	if len(paths) == 0 {
+		return t, false
+	}
+	env := core.NewEnv(c.P, paths[0])
+	args := site.Common().Args
+	t2 := t.Subst(func(x *core.Term) *core.Term {
+		if x.Op != "param" {
+			return nil
+		}
+		for i, p := range f.Params {
+			if p.Name() == x.Name && i < len(args) {
+				return env.Term(args[i])
+			}
+		}
+		return nil
+	})
+	return liftTerm(c, caller, t2, root, depth+1)
+}
+
+// reachedOnlyFrom reports whether module function f runs only as part of the function named root: it is root, a closure made
+// inside such a function, or every call of it in the module sits in such a function.
+func reachedOnlyFrom(c *Ctx, f *ssa.Function, root string, seen map[*ssa.Function]bool) bool {
+	if f == nil || seen[f] {
+		return false
+	}
+	if core.FuncName(f) == root {
+		return true
+	}
+	seen[f] = true
+	defer delete(seen, f)
+	if par := f.Parent(); par != nil {
+		return reachedOnlyFrom(c, par, root, seen)
+	}
+	node := c.P.CallGraph().Nodes[f]
+	if node == nil {
+		return false
+	}
+	n := 0
+	for _, e := range node.In {
+		if e.Caller.Func == nil || !core.InModule(e.Caller.Func) {
+			continue
+		}
+		n++
+		if !reachedOnlyFrom(c, e.Caller.Func, root, seen) {
+			return false
+		}
+	}
+	return n > 0
+}
